@@ -516,6 +516,39 @@ SKIP_REVIEWED = {
 }
 
 
+def travroot(repo, schema=None, sites=None, modules=None):
+    """R-TRAVROOT: a pass covers the whole of what it was given.  The root handed to a traversal is a parameter of the
+    enclosing function or a singular sub-node of a local (`field.location.size`): a root that is an element or a slice
+    of a repeated field (`ir.module[0]`, `ir.module[:1]`) or a freshly constructed container covers only a part, and
+    the rest of the IR silently keeps whatever the pass was meant to establish."""
+    res = RuleResult("R-TRAVROOT")
+    schema = schema or Schema(repo)
+    sites = sites if sites is not None else collect_sites(repo, schema)
+    for s in sites:
+        if modules is not None and not s.module.rel.endswith(tuple(modules)):
+            continue
+        if not s.call.args or s.func is None:
+            continue
+        res.instances += 1
+        root = s.call.args[0]
+        fn = s.func
+        params = {a.arg for a in fn.node.args.args}
+        expr = root
+        if isinstance(expr, ast.Name) and expr.id not in params:
+            defs = [n.value for n in walk_no_nested_funcs(fn.node) if isinstance(n, ast.Assign)
+                    and any(isinstance(t, ast.Name) and t.id == expr.id for t in n.targets)]
+            if len(defs) == 1:
+                expr = defs[0]
+        bad = [n for n in ast.walk(expr) if isinstance(n, (ast.Call, ast.Subscript))]
+        if bad:
+            res.add(f"{s.module.rel}|{fn.qualname}|{ast.unparse(root)[:50]}", f"{fn.qualname} traverses `{ast.unparse(expr)[:80]}` "
+                    f"(a {'constructed container' if isinstance(bad[0], ast.Call) else 'part of a repeated field'}) instead of the IR it "
+                    "was given: objects outside that part are never visited by this pass", s.module.rel, s.call.lineno, fn.qualname)
+        elif len(res.samples) < 3:
+            res.samples.append(f"{s.module.rel}:{s.call.lineno} root `{ast.unparse(root)}`")
+    return res
+
+
 def skiploss(repo, schema=None, sites=None, modules=None):
     """skip_descendants_of={S} hides every pattern match below an S node from the action.  For each site the
     hidden matches are computed on the product graph; every (action, S) pair that hides at least one match must
